@@ -44,9 +44,12 @@ def cursor_events(ctx, R, b):
     dest = place_str(it["dest"])
     out = []
     from adapters import classify_poll
+    from lib_flow import path_const_feasible
     for kind, path, know in sensitive_paths(b, fl, 3):
         if kind != "return":
             continue
+        if not path_const_feasible(b, path):
+            continue          # contradicts a variant / constant it carries itself (the verdict of an inlined helper re-matched)
         ev = []
         n = len(path)
         for i, bb in enumerate(path):
@@ -98,8 +101,10 @@ class _NoVal(Exception):
     pass
 
 
-def _eval_nc(e, n, c, cur_field):
+def _eval_nc(e, n, c, cur_field, len_at=None):
     """Value of an expression over the number of groups n (Vec::len of the groups vector) and the cursor c."""
+    if len_at is not None:
+        return _eval_nc_at(e, n, c, cur_field, len_at)
     e = strip_refs(e)
     if e[0] == "proj" and e[2] == (".0",) and e[1][0] == "binop" and e[1][1].endswith("WithOverflow"):
         e = ("binop", e[1][1].replace("WithOverflow", ""), e[1][2], e[1][3])
@@ -146,6 +151,138 @@ def _eval_nc(e, n, c, cur_field):
                 raise _NoVal()
             return a - b_
     raise _NoVal()
+
+
+def _eval_nc_at(e, n, c, cur_field, len_at):
+    """_eval_nc where a `len()` call has the value the vector had when the path passed that call."""
+    e = strip_refs(e)
+    if e[0] == "call" and re.search(r"alloc::vec::Vec::<.*>::len$|core::slice::<impl \[T\]>::len$", e[1] or "") and e[3] in len_at:
+        return len_at[e[3]]
+    if e[0] == "call" and re.search(r"alloc::vec::Vec::<.*>::is_empty$|core::slice::<impl \[T\]>::is_empty$", e[1] or "") and e[3] in len_at:
+        return len_at[e[3]] == 0
+    if e[0] == "proj" and e[2] == (".0",) and e[1][0] == "binop" and e[1][1].endswith("WithOverflow"):
+        e = ("binop", e[1][1].replace("WithOverflow", ""), e[1][2], e[1][3])
+    if e[0] == "binop":
+        a, b_ = _eval_nc_at(e[2], n, c, cur_field, len_at), _eval_nc_at(e[3], n, c, cur_field, len_at)
+        return _eval_nc(("binop", e[1], ("const", "usize" if not isinstance(a, bool) else "bool", str(int(a))),
+                         ("const", "usize" if not isinstance(b_, bool) else "bool", str(int(b_)))), n, c, cur_field)
+    if e[0] == "unop" and e[1] == "Not":
+        v = _eval_nc_at(e[2], n, c, cur_field, len_at)
+        if isinstance(v, bool):
+            return not v
+        raise _NoVal()
+    if e[0] == "call" and len(e[2]) == 2 and re.search(r"core::num::<impl usize>::", e[1] or ""):
+        a, b_ = _eval_nc_at(e[2][0], n, c, cur_field, len_at), _eval_nc_at(e[2][1], n, c, cur_field, len_at)
+        return _eval_nc(("call", e[1], (("const", "usize", str(int(a))), ("const", "usize", str(int(b_)))), e[3]), n, c, cur_field)
+    return _eval_nc(e, n, c, cur_field)
+
+
+def group_walk(ctx, b, fl, path, cur_field, grid=4):
+    """Concrete walks of ONE path of a group-loop function over every small start state (n groups, cursor c, 1 <= n <= grid,
+    0 <= c <= n): the vector of groups is a list of identities, `remove(cursor)` / put-back / push of a fresh group / cursor
+    stores (+k, := 0) act on it, every evaluable edge condition of the path is checked against the state at that edge (a
+    `len()` has the value the vector had where the path passed the call).  Returns None when the path does something to the
+    cursor the model cannot follow, else a list with one entry per start state the path is feasible for:
+    {"start": (n, c), "polls": [(path index, group id)], "end": (list, c, removed-and-put-back ids)}.  An empty list: the
+    path contradicts itself for every start (infeasible)."""
+    inner = [bb for bb, t, fn in b.calls() if fn and not b.is_cleanup(bb)
+             and re.search(RE_STREAM_POLL_NEXT, fn["def"]) and callee_body(ctx.facts, fn) is not None]
+    if len(inner) != 1:
+        return None
+    ibb = inner[0]
+    stores = {}
+    for (bb, i, s) in fl.stores:
+        if i == "term" or b.is_cleanup(bb):
+            continue
+        pe = fl.place_expr(s["place"])
+        if pe[0] == "proj" and pe[2][-1] == cur_field:
+            v = fl.rvalue_expr(s["rv"], bb)
+            k = is_inc_of(v, cur_field)
+            if k is not None:
+                stores.setdefault(bb, []).append(("inc", k))
+            elif v[0] == "const" and str(v[2]).isdigit():
+                stores.setdefault(bb, []).append(("set", int(v[2])))
+            else:
+                stores.setdefault(bb, []).append(("?", None))
+    rem_blocks = {bb for bb, t, fn in direct_sites(b, r"alloc::vec::Vec::<.*>::remove$")}
+    other_rem = {bb for bb, t, fn in direct_sites(b, r"alloc::vec::Vec::<.*>::(swap_remove|pop|truncate|clear|drain|retain|insert)$")}
+    back_blocks, fresh_blocks = set(), set()
+    for bb, t, fn in direct_sites(b, r"alloc::vec::Vec::<.*>::push$"):
+        v = fl.operand_expr(t["args"][-1])
+        recv = strip_refs(fl.operand_expr(t["args"][0]))
+        if v[0] == "call" and v[3] in rem_blocks:
+            back_blocks.add(bb)
+        else:
+            fresh_blocks.add(bb)
+    len_blocks = {bb for bb, t, fn in direct_sites(b, r"alloc::vec::Vec::<.*>::(len|is_empty)$|core::slice::<impl \[T\]>::(len|is_empty)$")}
+    if any(bb in other_rem for bb in path):
+        return None
+    if any(k_ == "?" for bb in path for (k_, _) in stores.get(bb, [])):
+        return None
+    labs = {}
+    out = []
+    for n0 in range(1, grid + 1):
+        for c0 in range(0, n0 + 1):
+            lst = list(range(n0))
+            c = c0
+            nxt = n0
+            removed = None
+            put_back = []
+            polls = []
+            len_at = {}
+            ok = True
+            for j, bb in enumerate(path):
+                for (k_, v_) in stores.get(bb, []):
+                    c = c + v_ if k_ == "inc" else v_
+                    if c < 0:
+                        ok = False
+                if not ok:
+                    break
+                if bb in len_blocks:
+                    len_at[bb] = len(lst)
+                if bb == ibb:
+                    if c >= len(lst):
+                        ok = False          # groups[cursor] out of bounds: the real run panics here
+                        break
+                    polls.append((j, lst[c]))
+                if bb in rem_blocks:
+                    if c >= len(lst):
+                        ok = False
+                        break
+                    removed = lst.pop(c)
+                if bb in back_blocks:
+                    if removed is None:
+                        ok = False
+                        break
+                    lst.append(removed)
+                    put_back.append(removed)
+                if bb in fresh_blocks:
+                    lst.append(nxt)
+                    nxt += 1
+                if j + 1 < len(path):
+                    if bb not in labs:
+                        labs[bb] = fl.edge_labels(bb)
+                    t = b.term(bb)
+                    for lab in labs[bb].get(path[j + 1], []):
+                        try:
+                            if lab[0] == "bool":
+                                if bool(_eval_nc(lab[1], len(lst), c, cur_field, len_at)) is not lab[2]:
+                                    ok = False
+                            elif lab[0] == "int":
+                                v = int(_eval_nc(lab[1], len(lst), c, cur_field, len_at))
+                                if lab[2] is None:
+                                    listed = [int(x) for x, _ in t.get("targets", []) if str(x).lstrip("-").isdigit()]
+                                    if v in listed:
+                                        ok = False
+                                elif v != int(lab[2]):
+                                    ok = False
+                        except (_NoVal, TypeError, ValueError):
+                            pass
+                    if not ok:
+                        break
+            if ok:
+                out.append({"start": (n0, c0), "polls": polls, "end": (lst, c, put_back)})
+    return out
 
 
 def arrival_grids(ctx, b, fl, ibb, tb, cur_field, grid=5):
